@@ -24,7 +24,8 @@ RULE = ('per seed one deletion item (random target graph as in C11; address in s
         'fault or crash fired, or the fault-free run deleted something')
 ASSUMPTIONS = [
     'models/pathedit.py is "Python\'s del on the addressed key, index or attribute"; builtin subclasses '
-    'are treated like the builtin they derive from',
+    'are treated like the builtin they derive from, except that the match set of a "*" step is glom\'s '
+    'own (keys handler before iterate: a list subclass with an instance __dict__ is object-style)',
     'collaborators fail atomically',
     'addresses that are neither present nor cleanly missing (immutable container, malformed index) are '
     'don\'t-care between an error and a silent no-op under ignore_missing; the target must be unchanged',
@@ -81,7 +82,7 @@ class Run:
 
 def _addr_desc(item):
     op = item['segs'][-1][0]
-    return {'P': 'path-segment', '[': 'T-item', '.': 'T-attr', 'x': 'wild'}[op] + \
+    return {'P': 'path-segment', '[': 'T-item', '.': 'T-attr', 'x': 'wild', 'X': 'wild'}[op] + \
         ('/ignore_missing' if item['ignore_missing'] else '')
 
 
